@@ -1190,6 +1190,15 @@ func (z *Decimal) setBits64(neg bool, x uint64, exp int64) *Decimal {
 	// x != 0
 	z.form = finite
 	z.mant = z.mant.setUint64(x)
+	// Keep the exponent arithmetic below from wrapping around int64 (NewDecimal
+	// takes any int); anything that far outside [MinExp, MaxExp] over- or
+	// underflows anyway.
+	const lim = 1 << 62
+	if exp > lim {
+		exp = lim
+	} else if exp < -lim {
+		exp = -lim
+	}
 	z.setExpAndRound(exp+int64(len(z.mant))*_DW-dnorm(z.mant), 0)
 	return z
 }
